@@ -404,6 +404,8 @@ class Interp:
             self.late(fr, st)
         elif op == 'spawn':
             self.spawn(fr, st)
+        elif op == 'probe':
+            self.probe(fr, st)
         elif op == 'nop':
             pass
         else:
@@ -479,6 +481,73 @@ class Interp:
             entered = ('f:' + rel) in self.order[n_before:]
             if entered and os.path.lexists(path):
                 self.viol.append(('C10', 'target-left-after-failure', rel))
+
+    # ------------------------------------------------------------------
+    # C04: a battery of queries over a set of paths, plus model-free
+    # consistency of the answers among themselves
+    def probe(self, fr, st):
+        sb = self.sb
+        rels = st[1]
+        B = fr.B
+        ans = {}
+        out = []
+        for rel in rels:
+            path = sb.p(rel)
+            for kind in ('exists', 'is_file', 'is_dir', 'list_dir', 'walk',
+                         'declare_read'):
+                try:
+                    a = B.query(kind, path, 'METADATA')
+                    a = norm_answer(kind, a, sb)
+                except OSError as e:
+                    a = '!' + type(e).__name__
+                ans[(kind, rel)] = a
+                out.append([kind, rel, a])
+        fr.obs.append(['probe', out])
+        if self.mode != 'real':
+            return
+        bad = None
+        relset = set(rels)
+        for rel in rels:
+            ex, isf, isd = (ans[('exists', rel)], ans[('is_file', rel)],
+                            ans[('is_dir', rel)])
+            ld, wk, rd = (ans[('list_dir', rel)], ans[('walk', rel)],
+                          ans[('declare_read', rel)])
+            if ex != (isf or isd):
+                bad = ('exists!=is_file|is_dir', rel)
+            elif isf and isd:
+                bad = ('file-and-dir', rel)
+            elif isd != isinstance(ld, list):
+                bad = ('list_dir-vs-is_dir', rel)
+            elif isf and ld != '!NotADirectoryError':
+                bad = ('list_dir-of-file', rel)
+            elif not ex and ld != '!FileNotFoundError':
+                bad = ('list_dir-of-missing', rel)
+            elif isf != (not str(rd).startswith('!')):
+                bad = ('read-vs-is_file', rel)
+            elif isd and rd != '!IsADirectoryError':
+                bad = ('read-of-dir', rel)
+            elif not ex and rd != '!FileNotFoundError':
+                bad = ('read-of-missing', rel)
+            elif (wk != []) != isd:
+                bad = ('walk-vs-is_dir', rel)
+            if bad is None and ex and rel not in ('', '.'):
+                parent = os.path.dirname(rel)
+                if parent in relset and not ans[('is_dir', parent)]:
+                    bad = ('parent-not-dir', rel)
+            if bad is None and isd:
+                names = set(ld)
+                for other in rels:
+                    if other and os.path.dirname(other) == rel:
+                        n = os.path.basename(other)
+                        if ans[('exists', other)] != (n in names):
+                            bad = ('list_dir-vs-exists', other)
+                top = [w for w in wk if w[0] == sb.rel(sb.p(rel))]
+                if not top or sorted(top[0][1] + top[0][2]) != sorted(ld):
+                    bad = ('walk-vs-list_dir', rel)
+            if bad is not None:
+                break
+        if bad is not None:
+            self.viol.append(('C04', 'cons:' + bad[0], bad[1]))
 
     # ------------------------------------------------------------------
     # C11: in-place mutation of values that crossed the API
